@@ -715,7 +715,7 @@ class C08(base.Engine):
 
 def _brief(o):
     if o['op'] == 'query':
-        return {'op': 'query', 'buf': o.get('buf'), 'path': o['path'], 'lines': o['code'].count('\n'),
+        return {'op': 'query', 'buf': o.get('buf'), 'path': o['path'], 'lines': (o.get('code') or '').count('\n'),
                 'probes': o['probes'][:3]}
     return o
 
